@@ -405,7 +405,16 @@ class Ctx:
 def run_check(pid, tier, seed, replay=None):
     # one run per property at a time (work/<pid>/ and evidence/<pid>.json are per property)
     with Lock('run-' + pid):
-        return _run_check(pid, tier, seed, replay)
+        try:
+            return _run_check(pid, tier, seed, replay)
+        except Exception:
+            import traceback
+            tb = traceback.format_exc()
+            path = write_replay(pid, 99, {'property': pid, 'kind': 'no-failing-input-found',
+                                          'theorem_or_correspondence': 'check driver crashed while checking %s (the property is not shown on this tree)' % pid,
+                                          'what': tb[-3000:], 'seed': seed, 'tier': tier, 'case': None})
+            log('VIOLATION property=%s replay=%s no-failing-input-found' % (pid, path))
+            return 1
 
 
 def _run_check(pid, tier, seed, replay=None):
